@@ -17,7 +17,10 @@ MIR_val_t nondet_val (void);
 static void vp_on_error (int code) { __CPROVER_assert (code == MIR_call_op_error, "postcondition: only the documented call error is raised"); }
 static struct MIR_context vp_ctx;
 static struct interp_ctx vp_ictx;
-static MIR_val_t vp_seen_args[5], vp_results[2];
+#ifndef MAXA
+#define MAXA 3 /* largest number of arguments in this build of the harness */
+#endif
+static MIR_val_t vp_seen_args[MAXA], vp_results[2];
 static size_t vp_nres_g, vp_nargs_g;
 static unsigned vp_tramp_calls;
 static void *vp_addr_seen;
@@ -25,16 +28,16 @@ static void *vp_addr_seen;
 static void vp_tramp (void *addr, void *res_args) {
   MIR_val_t *a = res_args;
   vp_tramp_calls++; vp_addr_seen = addr;
-  for (size_t k = 0; k < 3; k++) if (k < vp_nargs_g) vp_seen_args[k] = a[vp_nres_g + k];
+  for (size_t k = 0; k < MAXA; k++) if (k < vp_nargs_g) vp_seen_args[k] = a[vp_nres_g + k];
   for (size_t k = 0; k < 2; k++) if (k < vp_nres_g) a[k] = vp_results[k];
 }
-static _MIR_arg_desc_t vp_descs_seen[3];
+static _MIR_arg_desc_t vp_descs_seen[MAXA];
 static size_t vp_ffi_calls;
 static void *vp_model_get_ff_interface (MIR_context_t ctx, size_t arg_vars_num, size_t nres, MIR_type_t *res_types, size_t nargs,
                                         _MIR_arg_desc_t *arg_descs, int vararg_p) {
   (void) ctx; (void) arg_vars_num; (void) nres; (void) res_types; (void) vararg_p;
   vp_ffi_calls++;
-  for (size_t k = 0; k < 3; k++) if (k < nargs) vp_descs_seen[k] = arg_descs[k];
+  for (size_t k = 0; k < MAXA; k++) if (k < nargs) vp_descs_seen[k] = arg_descs[k];
   return (void *) vp_tramp;
 }
 void (*vp_keep_tramp) (void *, void *) = vp_tramp;
@@ -49,9 +52,9 @@ static uint64_t narrow (MIR_type_t t, MIR_val_t v) { /* C ABI: the value of the 
   default: return v.u;
   }
 }
-static MIR_var_t vp_vars[3]; static VARR (MIR_var_t) vp_args_v;
+static MIR_var_t vp_vars[MAXA]; static VARR (MIR_var_t) vp_args_v;
 static struct MIR_proto vp_proto; static struct MIR_item vp_pitem; static MIR_type_t vp_rtypes[2];
-static MIR_op_t vp_ops[3]; static MIR_val_t vp_bp[6], vp_ffi_cell, vp_res_ops[2], vp_argvals[4];
+static MIR_op_t vp_ops[MAXA]; static MIR_val_t vp_bp[6], vp_ffi_cell, vp_res_ops[2], vp_argvals[MAXA + 1];
 static void run_call (size_t nargs, size_t nres) {
   MIR_context_t ctx = &vp_ctx;
   struct interp_ctx *interp_ctx = &vp_ictx;
@@ -59,10 +62,10 @@ static void run_call (size_t nargs, size_t nres) {
   size_t nfixed = nondet_size ();
   __CPROVER_assume (nfixed <= nargs);
   int vararg = nfixed < nargs;
-  for (int k = 0; k < 3; k++) { int t = nondet_int (); __CPROVER_assume (t >= MIR_T_I8 && t <= MIR_T_P && t != MIR_T_BLK); vp_vars[k].type = (MIR_type_t) t; vp_argvals[k] = nondet_val ();
+  for (int k = 0; k < MAXA; k++) { int t = nondet_int (); __CPROVER_assume (t >= MIR_T_I8 && t <= MIR_T_P && t != MIR_T_BLK); vp_vars[k].type = (MIR_type_t) t; vp_argvals[k] = nondet_val ();
     int m = nondet_int (); __CPROVER_assume (m == MIR_OP_INT || m == MIR_OP_UINT || m == MIR_OP_DOUBLE || m == MIR_OP_LDOUBLE); vp_ops[k].mode = MIR_OP_REG; vp_ops[k].value_mode = (MIR_op_mode_t) m; }
   for (int k = 0; k < 2; k++) { int t = nondet_int (); __CPROVER_assume (t >= MIR_T_I8 && t <= MIR_T_P && t != MIR_T_BLK); vp_rtypes[k] = (MIR_type_t) t; vp_results[k] = nondet_val (); vp_res_ops[k].i = 4 + k; }
-  vp_args_v.els_num = nfixed; vp_args_v.size = 3; vp_args_v.varr = vp_vars;
+  vp_args_v.els_num = nfixed; vp_args_v.size = MAXA; vp_args_v.varr = vp_vars;
   vp_proto.args = &vp_args_v; vp_proto.nres = (uint32_t) nres; vp_proto.res_types = vp_rtypes; vp_proto.vararg_p = vararg; vp_proto.name = "p";
   vp_pitem.item_type = MIR_proto_item; vp_pitem.u.proto = &vp_proto;
   /* scratch arrays of the interpreter context: any capacity >= 1, as VARR_CREATE leaves them */
@@ -80,7 +83,7 @@ static void run_call (size_t nargs, size_t nres) {
   call (ctx, vp_bp, vp_ops, &vp_ffi_cell, &vp_pitem, callee, vp_res_ops, nargs);
   ENS (vp_tramp_calls == 1 && vp_addr_seen == callee, "the native function is called once through the trampoline");
   ENS (vp_ffi_cell.a == (void *) vp_tramp && vp_ffi_calls == (cached ? 0 : 1), "the call site caches its interface");
-  for (size_t g = 0; g < 3; g++) {
+  for (size_t g = 0; g < MAXA; g++) {
     if (g >= nargs) break;
     if (g < nfixed) {
       MIR_type_t t = vp_vars[g].type;
@@ -110,3 +113,6 @@ static void run_call (size_t nargs, size_t nres) {
    arguments, all types, values, capacities and the cache state stay symbolic) */
 #define E(n, r) void h_call_##n##_##r (void) { run_call (n, r); }
 E (0, 0) E (0, 1) E (0, 2) E (1, 0) E (1, 1) E (1, 2) E (2, 0) E (2, 1) E (2, 2) E (3, 0) E (3, 1) E (3, 2)
+#if MAXA >= 5
+E (4, 1) E (5, 0) E (5, 2)
+#endif
